@@ -436,6 +436,12 @@ def gen_params(rng, mp=None, small=False, big_lists=False, twopl=None):
     p['n1'] = rng.randint(1, hi1)
     if mp != 'sm':
         p['n2'] = rng.randint(1, hi2)
+    if not small and rng.random() < 0.12:
+        # two-digit agent ids in the written lists
+        if mp == 'sm' or rng.random() < 0.5:
+            p['n1'] = rng.randint(10, 12)
+        if mp != 'sm' and (p['n1'] < 10 or rng.random() < 0.5):
+            p['n2'] = rng.randint(10, 12)
     n2 = p.get('n2', p['n1'])
     if mp == 'spa':
         p['n3'] = rng.randint(1, 4)
@@ -536,7 +542,7 @@ def build_c13(rng, tier):
     p = gen_params(rng, mp=mp, big_lists=True,
                    twopl=(rng.random() < 0.8))
     n2 = p.get('n2', p['n1'])
-    p['pmax'] = rng.randint(max(1, n2 - 2), n2)
+    p['pmax'] = rng.randint(max(1, min(n2, 6) - 2), min(n2, 6))
     p['pmin'] = rng.randint(1, p['pmax'])
     p['t1'] = rng.choice([.3, .5, .7, 1])
     if mp != 'ha':
